@@ -381,6 +381,14 @@ class Driver:
                 return None
             self.last_ids = [self.rng.choice(ids)]
             kw = dict(kw, tasks=list(self.last_ids))
+        elif kw.get("tasks") == ["@pooled"]:
+            # one task that is in the pool right now and has not finished
+            ids = sorted(it.identity for it in self.schd.pool.get_tasks() if it.state("waiting", "preparing", "submitted", "running"))
+            if not ids:
+                self.last_ids = None
+                return None
+            self.last_ids = [self.rng.choice(ids)]
+            kw = dict(kw, tasks=list(self.last_ids))
         elif kw.get("tasks") == ["@same"]:
             if not getattr(self, "last_ids", None):
                 return None
